@@ -196,6 +196,8 @@ fn eval_prefix(prefixes: &BTreeMap<String, Numeric>, expr: &Expr) -> Result<Nume
             let right: i32 = right
                 .to_int()
                 .and_then(|value| value.try_into().ok())
+                // i32::MIN cannot be negated
+                .filter(|&value: &i32| value != i32::MIN)
                 .ok_or_else(|| "Exponent is too big".to_string())?;
             if right < 0 && (left == Numeric::zero() || left == Numeric::Float(0.0)) {
                 return Err("Division by zero".to_string());
